@@ -723,3 +723,136 @@ Definition c11_draw_mismatches (cases : list case) : list Z :=
   bad_indices (fun c => negb (case_agrees c)) cases.
 Definition c11_draw_violations (cases : list case) : list Z :=
   bad_indices (fun c => negb (case_holds c)) cases.
+
+(* ------------------------------------------------------------------ sequences of calls
+   (stream "seq").  State that survives between calls: several drawing calls, each through
+   its own window, on ONE screen.  The screen is not reset between the steps, so a call
+   meets whatever earlier calls (through other windows) left behind; the property is decided
+   for every step against the screen observed just before it. *)
+
+(* any number of drawing calls, each through its own window, for arbitrary oracles *)
+Fixpoint run_seq_with (m : text -> Z) (remeasure : bool) (tr : text -> bool)
+         (s : screen) (steps : list (window * op)) : option screen :=
+  match steps with
+  | [] => Some s
+  | (w, o) :: t =>
+      match run_op_with m remeasure tr w s o with
+      | None => None
+      | Some (s', _) => run_seq_with m remeasure tr s' t
+      end
+  end.
+
+(* no window of the sequence has (X,Y) in its clip *)
+Definition outside_all (s : screen) (steps : list (window * op)) (X Y : Z) : bool :=
+  forallb (fun st => negb (visible (fst st) s X Y)) steps.
+
+(* a screen given by its list of cells that differ from the background *)
+Fixpoint diff_at (d : list (Z * Z * cell)) (x y : Z) : option cell :=
+  match d with
+  | [] => None
+  | (x', y', c) :: t => if (x' =? x) && (y' =? y) then Some c else diff_at t x y
+  end.
+
+Definition obs_at (bg : cell) (d : list (Z * Z * cell)) (x y : Z) : cell :=
+  match diff_at d x y with Some c => c | None => bg end.
+
+(* the cells that differ between two observed screens (each given by its difference from
+   the background), row-major, with the new content *)
+Definition changed_cells (bg : cell) (cols rows : Z) (prev post : list (Z * Z * cell)) : list (Z * Z * cell) :=
+  flat_map (fun y => flat_map (fun x => let b := obs_at bg post x y in
+                                        if cell_eqb (obs_at bg prev x y) b then [] else [(x, y, b)])
+                              (zrange cols)) (zrange rows).
+
+(* what one SetCell / SetStyle must have changed on the screen observed before it *)
+Definition expected_change (w : window) (s : screen) (bg : cell) (prev : list (Z * Z * cell))
+           (col row : Z) (f : cell -> cell) : list (Z * Z * cell) :=
+  let '(ox, oy) := origin w in
+  let old := obs_at bg prev (ox + col) (oy + row) in
+  if visible w s (ox + col) (oy + row) && negb (cell_eqb old (f old)) then [(ox + col, oy + row, f old)] else [].
+
+(* one step: the window specification, the call, what was observed after it *)
+Definition sstep := (wspec * op * obs)%type.
+
+Record scase := mkSCase { q_cols : Z; q_rows : Z; q_bg : cell; q_remeasure : bool;
+                          q_tab : otable; q_steps : list sstep }.
+
+(* model = implementation on every step of a sequence; the model's screen is carried on *)
+Fixpoint seq_agrees_from (bg : cell) (tab : otable) (remeasure : bool) (s : screen) (steps : list sstep) : bool :=
+  match steps with
+  | [] => true
+  | (ws, o, ob) :: t =>
+      let w := build_window s ws in
+      table_covers tab o &&
+      list_eqb frame_eqb (wchain w) (o_frames ob) &&
+      pair_eqb (win_origin w) (o_origin ob) &&
+      match run_op tab remeasure w s o with
+      | None => (o_outcome ob =? 1) && match t with [] => true | _ => false end
+      | Some (s', ret) =>
+          (o_outcome ob =? 0) && diff_eqb (screen_diff bg s') (o_diff ob) && pair_eqb ret (o_ret ob) &&
+          seq_agrees_from bg tab remeasure s' t
+      end
+  end.
+
+Definition scase_agrees (c : scase) : bool :=
+  seq_agrees_from (q_bg c) (q_tab c) (q_remeasure c) (bg_screen (q_bg c) (q_cols c) (q_rows c)) (q_steps c).
+
+(* the property on one step, stated on the two observed screens (before: [prev], after:
+   [o_diff]) only: no panic, New clamps, Origin() is the sum of the offsets, every cell that
+   CHANGED lies inside the window, all its ancestors and the screen, SetCell / SetStyle
+   change exactly the cell at origin+offset when it is in the clip, and (text helpers on
+   constructed windows) no glyph of a changed cell sticks out of the clip *)
+Definition step_core_holds (bg : cell) (cols rows : Z) (prev : list (Z * Z * cell)) (st : sstep) : bool :=
+  let s := bg_screen bg cols rows in
+  let '(ws, o, ob) := st in
+  match window_of_frames (o_frames ob) with
+  | None => false
+  | Some w =>
+      let ch := changed_cells bg cols rows prev (o_diff ob) in
+      (o_outcome ob =? 0) &&
+      new_edges_ok (snd ws) (rev (o_frames ob)) &&
+      pair_eqb (o_origin ob) (origin w) &&
+      forallb (fun d => on_screen s (fst (fst d)) (snd (fst d))) (o_diff ob) &&
+      forallb (fun d => visible w s (fst (fst d)) (snd (fst d))) ch &&
+      match o with
+      | OSetCell col row cl => diff_same ch (expected_change w s bg prev col row (fun _ => cl))
+      | OSetStyle col row sty => diff_same ch (expected_change w s bg prev col row (fun old => mkCell (cg old) (cw old) sty))
+      | _ => true
+      end &&
+      (if is_text_op o && built_by_constructors ws then
+         forallb (fun d => forallb (fun i => visible w s (fst (fst d) + i) (snd (fst d)))
+                                   (zrange (glyph_w (snd d)))) ch
+       else true)
+  end.
+
+(* the further clauses of [case_more_holds] (reading order, measured width, non-overlap),
+   applied to the cells the step changed *)
+Definition step_more_holds (bg : cell) (cols rows : Z) (remeasure : bool) (tab : otable)
+           (prev : list (Z * Z * cell)) (st : sstep) : bool :=
+  let '(ws, o, ob) := st in
+  case_more_holds (mkCase cols rows bg ws remeasure tab o
+                     (mkObs (o_outcome ob) (o_frames ob) (o_origin ob)
+                            (changed_cells bg cols rows prev (o_diff ob)) (o_ret ob))).
+
+Fixpoint seq_core_from (bg : cell) (cols rows : Z) (prev : list (Z * Z * cell)) (steps : list sstep) : bool :=
+  match steps with
+  | [] => true
+  | st :: t => step_core_holds bg cols rows prev st && seq_core_from bg cols rows (o_diff (snd st)) t
+  end.
+
+Fixpoint seq_more_from (bg : cell) (cols rows : Z) (remeasure : bool) (tab : otable)
+         (prev : list (Z * Z * cell)) (steps : list sstep) : bool :=
+  match steps with
+  | [] => true
+  | st :: t => step_more_holds bg cols rows remeasure tab prev st &&
+               seq_more_from bg cols rows remeasure tab (o_diff (snd st)) t
+  end.
+
+Definition scase_core_holds (c : scase) : bool := seq_core_from (q_bg c) (q_cols c) (q_rows c) [] (q_steps c).
+Definition scase_more_holds (c : scase) : bool :=
+  seq_more_from (q_bg c) (q_cols c) (q_rows c) (q_remeasure c) (q_tab c) [] (q_steps c).
+Definition scase_holds (c : scase) : bool := scase_core_holds c && scase_more_holds c.
+
+Definition c11_seq_mismatches (cases : list scase) : list Z :=
+  bad_indices (fun c => negb (scase_agrees c)) cases.
+Definition c11_seq_violations (cases : list scase) : list Z :=
+  bad_indices (fun c => negb (scase_holds c)) cases.
